@@ -32,7 +32,7 @@ def walk(disp, valid, r, c, dr, dc) -> "float":
         disp[c, r] if (valid[c, r] & 963) == 0 else walk(disp, valid, r + dr, c + dc, dr, dc))
 
 
-@contract("pandora.img_tools.find_valid_neighbors", props=["C14"])
+@contract("pandora.img_tools.find_valid_neighbors", props=["C14", "C09"])
 def _(dirs, disp, valid, row, col):
     types(dirs="i64[:,:]", disp="f32[:,:]", valid="u16[:,:]", row="int", col="int", result="f32[:]")
     # the 8 scan directions used by both sgm kernels
